@@ -88,7 +88,7 @@ def native_replay(C, pid, fc, ob, extra=None, override=None):
     for nm, cond in fc.raises.items():
         if isinstance(cond, str):
             clauses.append({"label": "raises[%s]" % nm, "text": cond, "when": "raise-pre"})
-    spec = {"pid": pid, "file": fc.file, "qualname": fc.qualname, "params": rp["params"],
+    spec = {"pid": getattr(fc.cset, "replay_pid", pid), "file": fc.file, "qualname": fc.qualname, "params": rp["params"],
             "predicted": rp["predicted"], "ext_returns": rp["ext_returns"], "real_classes": real_classes,
             "requires_of": requires_of, "clauses": clauses, "lets": {k: v for k, v in fc.lets.items()},
             "symbols": ob.get("model") or {}}
